@@ -365,10 +365,24 @@ func hlslClass(kind string) byte {
 }
 
 func c17HLSL(p *wgen.F5Program, m *ir.Module, mapped bool, fail c17Fail, count func()) {
+	c17HLSLEntry(p, m, mapped, "", fail, count)
+}
+
+// c17HLSLEntry: with entry != "", only that entry point is compiled (Options.EntryPoint); the registers of
+// the declared resources must be the same as for the whole module, the entry function must be present and
+// the functions of the other entry points absent.
+func c17HLSLEntry(p *wgen.F5Program, m *ir.Module, mapped bool, entry string, fail c17Fail, count func()) {
 	o := *hlsl.DefaultOptions()
+	o.EntryPoint = entry
 	tag := "hlsl-default"
+	if entry != "" {
+		tag = "hlsl-single-entry-default"
+	}
 	if mapped {
 		tag = "hlsl-mapped"
+		if entry != "" {
+			tag = "hlsl-single-entry-mapped"
+		}
 		o.FakeMissingBindings = false
 		o.BindingMap = map[hlsl.ResourceBinding]hlsl.BindTarget{}
 		for _, r := range p.Resources {
@@ -436,6 +450,15 @@ func c17HLSL(p *wgen.F5Program, m *ir.Module, mapped bool, fail c17Fail, count f
 	for _, e := range p.Entries {
 		if n, ok := names[e.Name]; ok && !fns[n] {
 			fail(tag+":entry-point-name", fmt.Sprintf("reflection maps %s to %s, which is not a function in the text", e.Name, n))
+		}
+		if entry != "" {
+			n, ok := names[e.Name]
+			if e.Name == entry && !ok {
+				fail(tag+":entry-point-name", "no entry-point name reported for the selected entry point "+e.Name)
+			}
+			if e.Name != entry && (fns[e.Name] || ok && fns[n]) {
+				fail(tag+":entry-point-filter", fmt.Sprintf("EntryPoint=%s, but the text also defines %s", entry, e.Name))
+			}
 		}
 	}
 }
@@ -648,7 +671,10 @@ func runC17() int {
 	_ = sk
 	sort.Strings(sk)
 	printKeys(r)
-	return r.Finish("F5 interface programs: every multiset of 3 resource kinds out of {uniform, storage ro/rw, sampled/depth/storage texture, sampler, comparison sampler} x 5 stage combinations (1-4 entry points) x use-subsets per entry point (all 64 pairs in the thorough tier, a fixed third plus the all/none rows in the quick tier) x 2 IO signatures per stage (bare parameters and structs; builtins; locations 0,1,2,15; every interpolation/sampling attribute; invariant) x shared/unshared bindings x direct/helper-routed use. An interface model computed by the generator is compared with: SPIR-V 1.1 and 1.4 decorations, storage classes, access modes, execution models/modes and OpEntryPoint interface lists (both directions: nothing missing, nothing invented); HLSL registers/spaces under the default and an explicit binding map; MSL [[buffer(n)]] slots, address spaces and constness under a per-entry-point resource map; GLSL layout(binding) under a binding map, per-entry-point block elimination and the Uniforms reflection against the declared blocks; reflection entry-point names against the functions present. distinct = resource-kind x stage combinations",
+	return r.Finish("F5 interface programs: every multiset of 3 resource kinds out of {uniform, storage ro/rw, sampled/depth/storage texture, sampler, comparison sampler} x 5 stage combinations (1-4 entry points) x use-subsets per entry point (all 64 pairs in the thorough tier, a fixed third plus the all/none rows in the quick tier) x 2 IO signatures per stage (bare parameters and structs; builtins; locations 0,1,2,15; every interpolation/sampling attribute; invariant) x shared/unshared bindings x direct/helper-routed use. An interface model computed by the generator is compared with: SPIR-V 1.1 and 1.4 decorations, storage classes, access modes, execution models/modes and OpEntryPoint interface lists (both directions: nothing missing, nothing invented); HLSL registers/spaces under the default and an explicit binding map; MSL [[buffer(n)]] slots, address spaces and constness under a per-entry-point resource map; GLSL layout(binding) under a binding map, per-entry-point block elimination and the Uniforms reflection against the declared blocks; reflection entry-point names against the functions present. "+
+		"ATTRIBUTE ORDER (F5X): one IO item (vertex output + fragment input) x every legal @interpolate(type[, sampling]) x 8 types x {member of separate structs, member of one struct shared by both stages, bare parameter, struct + bare parameter mixed} x {none, @size, @align, @size+@align} x first/last member x ALL permutations of the attribute list; vertex inputs and fragment outputs (member/bare) x permutations; both members of a dual-source struct x all permutations of [@location, @blend_src, extras] (24x24 product reduced to 3 diagonals in the quick tier); @builtin(position) @invariant x permutations (vertex output, fragment input, bare and member); every builtin as a struct member x extras x permutations; @group/@binding in both orders for all 8 resource kinds, @compute/@workgroup_size in both orders (1-3 arguments, literals and const-expressions), a @must_use helper: each compared with the interface model in SPIR-V 1.1/1.4 (Location, Index, Flat/NoPerspective/Centroid/Sample, Invariant, BuiltIn), HLSL (semantics by index, SV_ system values, SV_TargetN, nointerpolation/noperspective/centroid/sample, numthreads, vertex-output/fragment-input semantic agreement), MSL (stage keyword, [[attribute(n)]], [[user(..n)]], [[color(n)]] + index(i), builtin attributes, [[invariant]], the seven interpolation attributes, vertex-output/fragment-input user() agreement) and GLSL 330/450/300es/310es (all ten versions in the thorough tier: layout(location[, index]), flat/noperspective/centroid/sample where the version has them, types, `invariant gl_Position`, local_size, varyings link by location or by name; nothing missing, nothing invented). "+
+		"PER-ENTRY-POINT OPTIONS (F5EP): 15 modules of 2-3 entry points (5 stage sets x 3 use patterns over a pool of 6 resources) x every order of the entry points in the source x every assignment of {explicit resource map, no map} x FakeMissingBindings on/off x {complete, sparse} maps: the MSL argument slots of an entry point equal its own map entry, equal those of the same entry point compiled alone with the same entry (nothing leaks between entry points), never collide, and the module fails to compile exactly when one entry point alone does; every order also against the interface model in SPIR-V, HLSL, MSL, GLSL. "+
+		"REFLECTION (F5 programs with unshared bindings and an all-using entry point; both IO variants and the thorough use-subset rows in the thorough tier) x all ten GLSL versions x {no map, binding map}: every Uniforms entry names a declared block of the reported kind (uniform vs buffer: IsStorage) and a buffer the entry point uses, every declared block is reported exactly once, block kind follows the WGSL address space where the version has buffer blocks, layout(binding) follows the map where the version has it, TextureMappings/TextureSamplerPairs name declared opaque uniforms with bindings of a used texture/sampler and cover every sampled pair, entry-point names exist; HLSL RegisterBindings against the declared registers in both directions; MSL EntryPointNames, stage keywords, SizesBuffer slot and RequiresSizesBuffer against the extra buffer argument. distinct = resource-kind x stage combinations + attribute-order construct classes + F5EP modules",
 		[]string{"the interface model is computed from the generator's own description of the program (static use through the call graph), not from naga",
 			"MSL vertex/fragment argument attributes and GLSL in/out location qualifiers are not modelled (documented limit); samplers in HLSL go through naga's sampler heap and are not checked"})
 }
